@@ -3,6 +3,7 @@ package main
 // Encoder: go/ssa function -> guarded SMT definitions + proof obligations.
 
 import (
+	"os"
 	"fmt"
 	"go/ast"
 	"go/token"
@@ -374,7 +375,7 @@ func (e *Enc) hget(h *Heap, key string) string {
 			switch {
 			case ce.all || star:
 				t = e.declare(fmt.Sprintf("K_%s_%d", key, h.id), sortK)
-			case !in:
+			case !in && (ce.noalloc || os.Getenv("GOCV_OLDFRAME") == ""):
 				// No allocated location under this key is in the callee's footprint.
 				// Objects the callee allocates have no observable pre-state (their
 				// slots in the pre-state arrays are unconstrained), so the array can
